@@ -648,7 +648,8 @@ def main(registry: Dict[str, Any], argv: Optional[List[str]] = None) -> int:
         if args.replay:
             return do_replay(sim, args.replay)
         if args.one is not None:
-            sim.prepare("quick")
+            sim.verif_seed = args.seed
+            sim.prepare(args.tier)
             try:
                 t = Tape.search(args.seed, sim.property_id, args.one)
                 res = run_one(sim, t)
